@@ -193,6 +193,7 @@ func init() {
 	harnessAPI["verifFloat64"] = func(ex *Exec, fn *ssa.Function, a []Value) Value {
 		name := ex.newVarName(ex.strArg(a[0]))
 		v := ex.tt.Var(name, F64Sort)
+		ex.pathVars = append(ex.pathVars, v)
 		ex.draws = append(ex.draws, Draw{Name: name, Kind: "f64", vars: []*Term{v}})
 		return v
 	}
@@ -328,7 +329,7 @@ func (ex *Exec) ufBytes(name string, in []*Term, n int) []*Term {
 
 // pathAlive ends the path when the path condition became unsatisfiable.
 func (ex *Exec) pathAlive() {
-	if ex.sol.Check() == Unsat {
+	if r, _ := ex.solve(nil, nil, false); r == Unsat {
 		ex.end("infeasible", "assumption unsatisfiable")
 	}
 }
@@ -361,7 +362,7 @@ func (ex *Exec) assertCond(c *Term, msg string) {
 	}
 	// continue on the side where the assertion holds
 	ex.addPC(c)
-	if ex.sol.Check() == Unsat {
+	if r, _ := ex.solve(nil, nil, false); r == Unsat {
 		ex.end("stop", "assertion fails on every continuation")
 	}
 }
